@@ -36,6 +36,7 @@ func runC13(l *core.Ledger) {
 	l.Rule("C13-D3", "direction table: requestType ↦ Input(), responseType ↦ Output(), default ↦ error; server decodes into newMessage(requestType), client into newMessage(responseType); who-may-set Message.msgType = newMessage")
 	l.Rule("C13-D4", "handler status transport (C07-E5 re-run)")
 	l.Rule("C13-D5", "Codec.Marshal and Codec.Unmarshal return an error for unsupported argument types")
+	l.Rule("C13-D9", "the text of a handler's status arrives as it was sent: it travels in a proto3 string, so either both sides apply an unconditional encode/decode pair that can carry arbitrary bytes, or nobody rewrites it (then text that is not valid UTF-8 cannot be marshalled: known finding); a rewrite on one side only, or under a content test on one side only, changes some texts")
 	l.Rule("C13-D8", "a decode that can report success has stored a freshly created message of the method's type into msg.Message (never nil on a success return)")
 	l.Rule("C13-D7", "decoding overwrites: the codec's unmarshal options do not set Merge, or every RecvMsg target is a newMessage result built between two receives")
 	l.Rule("C13-D6", "delivery of a message-carrying response is dominated by the match edge of a comparison of the reply's method with the method recorded in the router at registration")
@@ -142,6 +143,7 @@ func runC13(l *core.Ledger) {
 	c13D6(l, r)
 	c13D7(l, r)
 	c13D8(l, r, gum)
+	c13D9(l, r)
 }
 
 // c13SliceTable verifies the side conditions of the b[mdLen:] entry.
@@ -323,6 +325,30 @@ func c13D2(l *core.Ledger, r *rt, gm, gum *ssa.Function) {
 				vals[outer] = c.Value.String()
 			}
 		})
+		// the decoder must accept everything the encoder can emit: no limit or filter on one side only
+		for _, f := range allFuncs(l.Prog, r.pkg) {
+			sx.AllInstrs(f, func(_ sx.Node, in ssa.Instruction) {
+				st, ok := in.(*ssa.Store)
+				if !ok {
+					return
+				}
+				fa, ok := st.Addr.(*ssa.FieldAddr)
+				if !ok || !isNamed(fa.X.Type(), "google.golang.org/protobuf/proto", "UnmarshalOptions") {
+					return
+				}
+				fl := fieldOf(fa.X.Type(), fa.Field)
+				if fl == nil {
+					return
+				}
+				switch fl.Name() {
+				case "RecursionLimit", "DiscardUnknown":
+					if c, isC := st.Val.(*ssa.Const); isC && c.Value != nil && (c.Value.String() == "0" || c.Value.String() == "false") {
+						return
+					}
+					l.Bad("C13-D2", fnKey(f)+"/UnmarshalOptions."+fl.Name(), st.Pos(), "the decoder is given "+fl.Name()+", which the encoder has no counterpart for: a message that Marshal emits (deeply nested, or carrying fields this binary does not know) is rejected or altered by Unmarshal - it does not round-trip, and a rejected frame ends the stream")
+				}
+			})
+		}
 		l.Check(vals["marshaler"] == vals["unmarshaler"], "C13-D2", "gorums.NewCodec/AllowPartial", nc.Pos(), fmt.Sprintf("AllowPartial agrees (%v)", vals), fmt.Sprintf("marshaler and unmarshaler disagree on AllowPartial: %v — a message one side emits is rejected by the other", vals))
 	}
 }
@@ -719,4 +745,137 @@ func c13D8(l *core.Ledger, r *rt, gum *ssa.Function) {
 			fmt.Sprintf("gorumsUnmarshal can return without an error although msg.Message holds no message (set on every path: %v; not reset to nil afterwards: %v): the frame is delivered as a success with a nil message, and the first unchecked use of it - the generated stubs' type assertion, the handlers' request cast - panics the receiving process", dom, clean))
 	})
 	l.Floor("C13-D8", n, 1, "returns of gorumsUnmarshal that can report success")
+}
+
+// c13D9: sibling agreement on what happens to Status.Message between the
+// handler's error and the caller's error.
+func c13D9(l *core.Ledger, r *rt) {
+	const spb = "google.golang.org/genproto/googleapis/rpc/status"
+	type rewrite struct {
+		fn          *ssa.Function
+		st          *ssa.Store
+		conditional bool
+	}
+	var server, client, other []rewrite
+	for _, f := range allFuncs(l.Prog, r.pkg) {
+		f := f
+		sx.AllInstrs(f, func(n sx.Node, in ssa.Instruction) {
+			st, ok := in.(*ssa.Store)
+			if !ok {
+				return
+			}
+			fa, ok := st.Addr.(*ssa.FieldAddr)
+			if !ok || !isNamed(fa.X.Type(), spb, "Status") {
+				return
+			}
+			if _, fresh := fa.X.(*ssa.Alloc); fresh {
+				return // building a new status value
+			}
+			// content-dependent guard: a dominating branch on utf8.Valid*(…)
+			cond := false
+			sx.AllInstrs(f, func(_ sx.Node, in2 ssa.Instruction) {
+				ifi, isIf := in2.(*ssa.If)
+				if !isIf {
+					return
+				}
+				v, _ := condOf(ifi)
+				dep := false
+				var walk func(v ssa.Value, d int)
+				walk = func(v ssa.Value, d int) {
+					if d > 6 || v == nil {
+						return
+					}
+					switch x := v.(type) {
+					case *ssa.Call:
+						if nm := sx.StaticCalleeName(&x.Call); nm == "unicode/utf8.ValidString" || nm == "unicode/utf8.Valid" {
+							dep = true
+						}
+					case *ssa.BinOp:
+						walk(x.X, d+1)
+						walk(x.Y, d+1)
+					case *ssa.UnOp:
+						walk(x.X, d+1)
+					case *ssa.Phi:
+						for _, e := range x.Edges {
+							walk(e, d+1)
+						}
+					}
+				}
+				walk(v, 0)
+				if !dep {
+					return
+				}
+				t, fl := sx.CondEdges(ifi)
+				if sx.EdgeDominates(f, t, n) || sx.EdgeDominates(f, fl, n) {
+					cond = true
+				}
+			})
+			// a sanitising rewrite - ToValidUTF8 of the field's own value - is the identity on every
+			// text a proto3 string can carry; it changes nothing that could have arrived
+			if fl := fieldOf(fa.X.Type(), fa.Field); fl != nil && fl.Name() == "Message" {
+				if c, isCall := st.Val.(*ssa.Call); isCall && sx.StaticCalleeName(&c.Call) == "strings.ToValidUTF8" {
+					if ld, isLd := c.Call.Args[0].(*ssa.UnOp); isLd {
+						if fa2, isFA := ld.X.(*ssa.FieldAddr); isFA && fa2.Field == fa.Field && sameValue(fa2.X, fa.X) {
+							return
+						}
+					}
+				}
+			}
+			rw := rewrite{f, st, cond}
+			top := f
+			for top.Parent() != nil {
+				top = top.Parent()
+			}
+			switch {
+			case top.Name() == "WrapMessage":
+				server = append(server, rw)
+			case len(recvMsgCalls(top)) > 0 && top.Signature.Recv() != nil && isNamed(top.Signature.Recv().Type(), core.RootModule, "channel"):
+				client = append(client, rw)
+			default:
+				other = append(other, rw)
+			}
+		})
+	}
+	wm := r.fn("WrapMessage")
+	pos := token.NoPos
+	if wm != nil {
+		pos = wm.Pos()
+	}
+	for _, o := range other {
+		l.Bad("C13-D9", fnKey(o.fn)+"/status-rewrite", o.st.Pos(), "a field of a handler's status is rewritten outside WrapMessage and the stream reader: the status no longer arrives as the handler returned it")
+	}
+	uncond := func(rs []rewrite) bool {
+		for _, x := range rs {
+			if x.conditional {
+				return false
+			}
+		}
+		return len(rs) > 0
+	}
+	switch {
+	case len(server) == 0 && len(client) == 0:
+		// nobody rewrites: exact for valid UTF-8; invalid UTF-8 cannot travel at all
+		valid := false
+		if wm != nil {
+			sx.AllInstrs(wm, func(_ sx.Node, in ssa.Instruction) {
+				if cc := sx.CallOf(in); cc != nil {
+					if nm := sx.StaticCalleeName(cc); nm == "unicode/utf8.ValidString" || nm == "unicode/utf8.Valid" || nm == "strings.ToValidUTF8" {
+						valid = true
+					}
+				}
+			})
+		}
+		l.Check(valid, "C13-D9", "gorums.WrapMessage/status-text", pos, "the status text is validated before it is put into the proto3 string",
+			"the text of a handler's error goes into Metadata.Status.message (a proto3 string) as it is: when it is not valid UTF-8 the reply cannot be marshalled, the server's SendMsg fails and gRPC ends the whole NodeStream - the caller gets 'stream is down' instead of the handler's code and text, and so does every other call pending on that connection")
+	case uncond(server) && uncond(client):
+		l.OK("C13-D9", "gorums.WrapMessage/status-text", pos, "an unconditional encode/decode pair")
+	default:
+		where := pos
+		if len(client) > 0 {
+			where = client[0].st.Pos()
+		} else if len(server) > 0 {
+			where = server[0].st.Pos()
+		}
+		l.Bad("C13-D9", "gorums.WrapMessage|receiver/status-rewrite", where, fmt.Sprintf("the status text is rewritten asymmetrically (server: %d rewrite(s), all unconditional: %v; client: %d, all unconditional: %v): some texts come out different from what the handler returned (e.g. an escape applied only to invalid UTF-8 but undone for every reply turns 'a%%20b' into 'a b')", len(server), uncond(server), len(client), uncond(client)))
+	}
 }
